@@ -22,7 +22,7 @@ def configs(ck, nsched):
 
 
 def run(ck, pid="C03", theorems=THEOREMS, module="Properties_C03"):
-    ck.prove([module, "SrcRun4"], theorems)   # SrcRun4: the translated protocol the traces are replayed on
+    ck.prove([module, "SrcRun4", "RefineConcSim"], theorems)   # SrcRun4: the translated protocol the traces are replayed on
     exe = shim_driver(ck)
     big = ck.tier == "thorough"
     res = run_schedules(ck, exe, configs(ck, 3000 if big else 400))
@@ -78,6 +78,11 @@ def analyse(ck, res, want):
             if v2:
                 rep["trace_mismatch"] = "translated protocol (MiniC threads): " + v2
                 srccorr.append(rep)
+            elif x.get("sim") is not None:
+                ck.cov["schedules_with_simulation_relation_checked_at_every_step"] = ck.cov.get("schedules_with_simulation_relation_checked_at_every_step", 0) + 1
+                if x["sim"] != "SIM ok":
+                    rep["trace_mismatch"] = "simulation relation PipeConc ~ translated protocol (RefineConcSim.simb): " + x["sim"]
+                    srccorr.append(rep)
         if len(ck.cov["samples"]) < 5:
             ck.cov["samples"].append({"T": x["T"], "direction": "enc" if x["ispadding"] else "dec", "input_len": x["n"], "steps": len(x["steps"]), "schedule_prefix": x["sched"][:80], "output_ok": True, "trace": v or "validated"})
     ck.cov["distinct_nontrivial"] = len(distinct)
